@@ -1,4 +1,4 @@
-(* Invariants of the NamespaceManager model: outside the F6b region the store
+(* Invariants of the NamespaceManager model: the store
    dictionaries stay mutually inverse and every cached / returned
    (prefix, namespace, name) names a prefix bound to that namespace now and
    concatenates back to the IRI. *)
@@ -72,34 +72,17 @@ Section Mgr.
     split; [constructor|split; [constructor|]]. intros p n; simpl; split; discriminate.
   Qed.
 
-  Lemma good_tries s a b : good s -> good (set_tries s a b).
-  Proof. intros H; exact H. Qed.
-
   Lemma good_insert_strie s v : good s -> good (m_insert_strie s v).
   Proof. unfold m_insert_strie. destruct (memb str_eqb v (strie s)); auto. Qed.
 
-  Lemma maps_insert_strie s v :
-    p2n (m_insert_strie s v) = p2n s /\ n2p (m_insert_strie s v) = n2p s
-    /\ bad (m_insert_strie s v) = bad s /\ cache (m_insert_strie s v) = cache s
-    /\ cache_s (m_insert_strie s v) = cache_s s.
-  Proof. unfold m_insert_strie. destruct (memb str_eqb v (strie s)); auto. Qed.
-
   (* _store_bind *)
-  Lemma m_store_bind_bad s prefix ns ov :
-    bad (fst (m_store_bind s prefix ns ov)) = (bad s || bad_bind s prefix ns ov).
-  Proof.
-    unfold m_store_bind.
-    destruct (store_bind_frame (set_caches s [] []) prefix ns ov) as (_ & _ & _ & _ & H).
-    exact H.
-  Qed.
-
   Lemma m_store_bind_good s prefix ns ov :
-    good s -> bad_bind s prefix ns ov = false ->
+    good s ->
     let r := m_store_bind s prefix ns ov in
     snd r = true /\ good (fst r) /\ (ov = true -> dget (p2n (fst r)) prefix = Some ns).
   Proof.
-    intros [Hb _] Hbad. unfold m_store_bind.
-    destruct (store_bind_good (set_caches s [] []) prefix ns ov Hb Hbad) as (H1 & H2 & H3).
+    intros [Hb _]. unfold m_store_bind.
+    destruct (store_bind_good (set_caches s [] []) prefix ns ov Hb) as (H1 & H2 & H3).
     destruct (store_bind_frame (set_caches s [] []) prefix ns ov) as (F1 & F2 & _).
     split; [exact H1|]. split; [|exact H3].
     split; [exact H2|]. split; intros u q; [rewrite F1|rewrite F2]; discriminate.
@@ -109,26 +92,8 @@ Section Mgr.
   Definition bind_res_ok (prefix : option str) (e : option exn) : Prop :=
     e = None \/ (e = Some EKey /\ exists p, prefix = Some p /\ has_space p = true).
 
-  Lemma m_bind_mono s prefix ns ov rep :
-    bad s = true -> bad (fst (m_bind s prefix ns ov rep)) = true.
-  Proof.
-    intros Hb. unfold m_bind.
-    assert (F : forall r : mst * bool, bad (fst r) = true ->
-      bad (fst ((if snd r then (m_insert_trie (fst r) ns, None) else (fst r, Some EKey)) : mst * option exn)) = true).
-    { intros [r []]; simpl; auto. }
-    assert (G : forall p, bad (fst (m_store_bind s p ns ov)) = true).
-    { intros p. rewrite m_store_bind_bad, Hb. reflexivity. }
-    destruct (match prefix with Some p => has_space p | None => false end); [exact Hb|].
-    destruct (match dget (p2n s) (odefault prefix []) with Some b => truthy b && negb (str_eqb b ns) | None => false end).
-    - destruct rep; [apply F, G|].
-      destruct (find_num s _ ns _ 1); [exact Hb|apply F, G].
-    - destruct (dget (n2p s) ns) as [bp|]; [|apply F, G].
-      destruct (str_eqb bp (odefault prefix [])); [apply F; exact Hb|].
-      destruct (ov || starts_with bp [95%N]); apply F; [apply G|exact Hb].
-  Qed.
-
   Lemma m_bind_good s prefix ns ov rep :
-    good s -> bad (fst (m_bind s prefix ns ov rep)) = false ->
+    good s ->
     good (fst (m_bind s prefix ns ov rep)) /\ bind_res_ok prefix (snd (m_bind s prefix ns ov rep)).
   Proof.
     intros Hg. unfold m_bind.
@@ -136,29 +101,25 @@ Section Mgr.
       let x := (if snd r then (m_insert_trie (fst r) ns, None) else (fst r, Some EKey)) : mst * option exn in
       good (fst x) /\ bind_res_ok prefix (snd x)).
     { intros [r b]; simpl; intros -> H. split; [exact H|now left]. }
-    assert (B : forall r : mst * bool,
-      bad (fst ((if snd r then (m_insert_trie (fst r) ns, None) else (fst r, Some EKey)) : mst * option exn)) = bad (fst r)).
-    { intros [r []]; reflexivity. }
-    assert (G : forall p, bad (fst (m_store_bind s p ns ov)) = false ->
+    assert (G : forall p,
       snd (m_store_bind s p ns ov) = true /\ good (fst (m_store_bind s p ns ov))).
-    { intros p Hb. rewrite m_store_bind_bad in Hb. apply orb_false_iff in Hb. destruct Hb as [_ Hb].
-      destruct (m_store_bind_good s p ns ov Hg Hb) as (H1 & H2 & _). auto. }
+    { intros p. destruct (m_store_bind_good s p ns ov Hg) as (H1 & H2 & _). auto. }
     destruct (match prefix with Some p => has_space p | None => false end) eqn:Esp.
-    { intros _. split; [exact Hg|]. right. split; [reflexivity|].
+    { split; [exact Hg|]. right. split; [reflexivity|].
       destruct prefix as [p|]; [eauto|discriminate]. }
     destruct (match dget (p2n s) (odefault prefix []) with Some b => truthy b && negb (str_eqb b ns) | None => false end).
     - destruct rep.
-      + rewrite B. intros Hb. destruct (G _ Hb). now apply F.
+      + destruct (G (odefault prefix [])). now apply F.
       + destruct (find_num s _ ns _ 1) as [|np].
-        * intros _. split; [exact Hg|now left].
-        * rewrite B. intros Hb. destruct (G _ Hb). now apply F.
+        * split; [exact Hg|now left].
+        * destruct (G np). now apply F.
     - destruct (dget (n2p s) ns) as [bp|].
       + destruct (str_eqb bp (odefault prefix [])).
-        * intros _. now apply F.
+        * now apply F.
         * destruct (ov || starts_with bp [95%N]).
-          { rewrite B. intros Hb. destruct (G _ Hb). now apply F. }
-          { intros _. now apply F. }
-      + rewrite B. intros Hb. destruct (G _ Hb). now apply F.
+          { destruct (G (odefault prefix [])). now apply F. }
+          { now apply F. }
+      + destruct (G (odefault prefix [])). now apply F.
   Qed.
 
   (* the call compute_qname makes: fresh prefix, unbound namespace, override *)
@@ -166,15 +127,13 @@ Section Mgr.
     good s -> has_space p = false -> dget (n2p s) ns = None ->
     (dget (p2n s) p = None \/ exists b, dget (p2n s) p = Some b /\ truthy b = false) ->
     let r := m_bind s (Some p) ns true false in
-    good (fst r) /\ snd r = None /\ dget (p2n (fst r)) p = Some ns /\ bad (fst r) = bad s.
+    good (fst r) /\ snd r = None /\ dget (p2n (fst r)) p = Some ns.
   Proof.
     intros Hg Hsp Hn Hp. unfold m_bind. rewrite Hsp. cbn [odefault].
     assert (O : match dget (p2n s) p with Some b => truthy b && negb (str_eqb b ns) | None => false end = false).
     { destruct Hp as [->|(b & -> & ->)]; reflexivity. }
     rewrite O, Hn.
-    assert (Hbb : bad_bind s p ns true = false) by reflexivity.
-    destruct (m_store_bind_good s p ns true Hg Hbb) as (H1 & H2 & H3).
-    pose proof (m_store_bind_bad s p ns true) as H4. rewrite Hbb, orb_false_r in H4.
+    destruct (m_store_bind_good s p ns true Hg) as (H1 & H2 & H3).
     destruct (m_store_bind s p ns true) as [s' ok]. simpl in *. subst ok. simpl.
     auto.
   Qed.
@@ -182,26 +141,24 @@ Section Mgr.
   Lemma m_generate_good s ns gen :
     good s -> dget (n2p s) ns = None ->
     let r := m_generate s ns gen in
-    good (fst r) /\ bad (fst r) = bad s /\
-    (forall p, snd r = inl p -> dget (p2n (fst r)) p = Some ns).
+    good (fst r) /\ (forall p, snd r = inl p -> dget (p2n (fst r)) p = Some ns).
   Proof.
     intros Hg Hn. unfold m_generate.
-    destruct (negb gen); [simpl; split; [auto|split; [auto|discriminate]]|].
+    destruct (negb gen); [simpl; split; [auto|discriminate]|].
     destruct (find_ns s (S (length (p2n s))) 1) as [p|] eqn:E;
-      [|simpl; split; [auto|split; [auto|discriminate]]].
+      [|simpl; split; [auto|discriminate]].
     destruct (find_ns_free _ _ _ _ E) as [Hsp Hp].
-    destruct (m_bind_generated s p ns Hg Hsp Hn Hp) as (H1 & H2 & H3 & H4).
-    rewrite H2. simpl. split; [auto|split; [auto|]]. intros p' X; inversion X; subst; auto.
+    destruct (m_bind_generated s p ns Hg Hsp Hn Hp) as (H1 & H2 & H3).
+    rewrite H2. simpl. split; [auto|]. intros p' X; inversion X; subst; auto.
   Qed.
 
   Lemma m_prefix_for_good s ns gen :
     good s ->
     let r := m_prefix_for s ns gen in
-    good (fst r) /\ bad (fst r) = bad s /\
-    (forall p, snd r = inl p -> dget (p2n (fst r)) p = Some ns).
+    good (fst r) /\ (forall p, snd r = inl p -> dget (p2n (fst r)) p = Some ns).
   Proof.
     intros Hg. unfold m_prefix_for. destruct (dget (n2p s) ns) as [p|] eqn:E.
-    - simpl. split; [auto|split; [auto|]]. intros p' X; inversion X; subst.
+    - simpl. split; [auto|]. intros p' X; inversion X; subst.
       destruct Hg as [(_ & _ & H) _]. now apply H.
     - now apply m_generate_good.
   Qed.
@@ -242,155 +199,80 @@ Section Mgr.
   Lemma m_compute_good s u gen :
     good s ->
     let r := m_compute split s u gen in
-    good (fst r) /\ bad (fst r) = bad s /\
-    (forall q, snd r = inl q -> qg (fst r) u (exact split u) q).
+    good (fst r) /\ (forall q, snd r = inl q -> qg (fst r) u (exact split u) q).
   Proof.
     intros Hg. unfold m_compute.
     destruct (dget (cache s) u) as [q|] eqn:Ec.
-    { simpl. split; [auto|split; [auto|]]. intros q' X; inversion X; subst.
+    { simpl. split; [auto|]. intros q' X; inversion X; subst.
       destruct Hg as [_ [C _]]. now apply C. }
-    destruct (negb (valid_uri u)); [simpl; split; [auto|split; [auto|discriminate]]|].
+    destruct (negb (valid_uri u)); [simpl; split; [auto|discriminate]|].
     destruct (split_or_whole split s u) as [[ns0 nm0]|] eqn:Es;
-      [|simpl; split; [auto|split; [auto|discriminate]]].
+      [|simpl; split; [auto|discriminate]].
     set (s1 := m_insert_strie s ns0).
     assert (Hg1 : good s1) by now apply good_insert_strie.
-    destruct (maps_insert_strie s ns0) as (_ & _ & Hb1 & _).
     set (nn := pick_ns s1 ns0 nm0 u).
-    destruct (m_prefix_for_good s1 (fst nn) gen Hg1) as (H1 & H2 & H3).
+    destruct (m_prefix_for_good s1 (fst nn) gen Hg1) as (H1 & H3).
     destruct (m_prefix_for s1 (fst nn) gen) as [s2 [p|e]]; cbn [fst snd] in *.
     - assert (Hq : qg s2 u (exact split u) (p, fst nn, snd nn)).
       { split; cbn [fst snd]; [now apply H3|]. intros Hx. apply pick_ns_exact.
         eapply split_or_whole_exact; eauto. }
-      split; [now apply good_set_cache|]. split; [cbn; rewrite H2; exact Hb1|].
+      split; [now apply good_set_cache|].
       intros q X; inversion X; subst. exact Hq.
-    - split; [auto|split; [rewrite H2; exact Hb1|discriminate]].
+    - split; [auto|discriminate].
   Qed.
 
   (* compute_qname_strict *)
   Lemma m_compute_strict_good s u gen :
     good s ->
     let r := m_compute_strict split split_s ncname s u gen in
-    good (fst r) /\ bad (fst r) = bad s /\
+    good (fst r) /\
     (forall q, snd r = inl q -> qg (fst r) u (exact split u /\ exact split_s u) q).
   Proof.
     intros Hg. unfold m_compute_strict.
-    destruct (m_compute_good s u gen Hg) as (H1 & H2 & H3).
+    destruct (m_compute_good s u gen Hg) as (H1 & H3).
     destruct (m_compute split s u gen) as [s1 [q|e]]; cbn [fst snd] in *;
-      [|split; [auto|split; [auto|discriminate]]].
+      [|split; [auto|discriminate]].
     destruct (ncname (snd q)).
-    { cbn [fst snd]. split; [auto|split; [auto|]]. intros q' X; inversion X; subst.
+    { cbn [fst snd]. split; [auto|]. intros q' X; inversion X; subst.
       destruct (H3 _ eq_refl) as [A B]. split; [exact A|]. intros [Hx _]; auto. }
     destruct (dget (cache_s s1) u) as [q'|] eqn:Ec.
-    { cbn [fst snd]. split; [auto|split; [auto|]]. intros q'' X; inversion X; subst.
+    { cbn [fst snd]. split; [auto|]. intros q'' X; inversion X; subst.
       destruct H1 as [_ [_ C]]. destruct (C _ _ Ec) as [A B]. split; [exact A|]. intros [_ Hx]; auto. }
-    destruct (split_s u) as [[ns' nm']|] eqn:Es; [|cbn [fst snd]; split; [auto|split; [auto|discriminate]]].
+    destruct (split_s u) as [[ns' nm']|] eqn:Es; [|cbn [fst snd]; split; [auto|discriminate]].
     set (s2 := m_insert_strie s1 ns').
     assert (Hg2 : good s2) by now apply good_insert_strie.
-    destruct (maps_insert_strie s1 ns') as (_ & _ & Hb2 & _).
-    destruct (m_prefix_for_good s2 ns' gen Hg2) as (G1 & G2 & G3).
+    destruct (m_prefix_for_good s2 ns' gen Hg2) as (G1 & G3).
     destruct (m_prefix_for s2 ns' gen) as [s3 [p|e]]; cbn [fst snd] in *.
     - assert (Hq : qg s3 u (exact split_s u) (p, ns', nm')).
       { split; cbn [fst snd]; [now apply G3|]. intros Hx. now apply Hx. }
-      split; [now apply good_set_cache_s|]. split; [cbn; rewrite G2; unfold s2; rewrite Hb2; exact H2|].
+      split; [now apply good_set_cache_s|].
       intros q0 X; inversion X; subst. destruct Hq as [A B]. split; [exact A|]. intros [_ Hx]; auto.
-    - split; [auto|split; [rewrite G2; unfold s2; rewrite Hb2; exact H2|discriminate]].
+    - split; [auto|discriminate].
   Qed.
 
   Lemma m_normalize_good s u :
     good s ->
     let r := m_normalize split s u in
-    good (fst r) /\ bad (fst r) = bad s /\
+    good (fst r) /\
     (forall q, snd r = inr (inl q) -> qg (fst r) u (exact split u) q) /\
     (forall x, snd r = inl x -> x = angle u).
   Proof.
     intros Hg. unfold m_normalize.
     destruct (split u) as [[ns nm]|];
-      [|cbn [fst snd]; split; [auto|split; [auto|split; [discriminate|]]]; intros x X; now inversion X].
+      [|cbn [fst snd]; split; [auto|split; [discriminate|]]; intros x X; now inversion X].
     set (s1 := m_insert_strie s ns).
     assert (Hg1 : good s1) by now apply good_insert_strie.
-    destruct (maps_insert_strie s ns) as (_ & _ & Hb1 & _).
     destruct (dget (n2p s1) ns).
-    - destruct (m_compute_good s1 u true Hg1) as (H1 & H2 & H3).
-      cbn [fst snd]. split; [auto|split; [rewrite H2; exact Hb1|split; [|discriminate]]].
+    - destruct (m_compute_good s1 u true Hg1) as (H1 & H3).
+      cbn [fst snd]. split; [auto|split; [|discriminate]].
       intros q X. apply H3. now inversion X.
-    - cbn [fst snd]. split; [auto|split; [auto|split; [discriminate|]]]. intros x X; now inversion X.
+    - cbn [fst snd]. split; [auto|split; [discriminate|]]. intros x X; now inversion X.
   Qed.
 
-  Lemma m_reset_good s : good s -> good (m_reset s) /\ bad (m_reset s) = bad s.
+  Lemma m_reset_good s : good s -> good (m_reset s).
   Proof.
-    intros [Hb [_ C]]. split; [|reflexivity]. split; [exact Hb|].
+    intros [Hb [_ C]]. split; [exact Hb|].
     split; [intros u q; discriminate|exact C].
-  Qed.
-
-  (* ---------------------------------------------------------------- *)
-  (* the trigger flag never goes back *)
-  Lemma m_generate_mono s ns gen : bad s = true -> bad (fst (m_generate s ns gen)) = true.
-  Proof.
-    intros H. unfold m_generate. destruct (negb gen); auto.
-    destruct (find_ns s _ 1) as [p|]; auto.
-    pose proof (m_bind_mono s (Some p) ns true false H) as M.
-    destruct (snd (m_bind s (Some p) ns true false)); exact M.
-  Qed.
-
-  Lemma m_prefix_for_mono s ns gen : bad s = true -> bad (fst (m_prefix_for s ns gen)) = true.
-  Proof.
-    intros H. unfold m_prefix_for. destruct (dget (n2p s) ns); auto. now apply m_generate_mono.
-  Qed.
-
-  Lemma bad_insert_strie s v : bad (m_insert_strie s v) = bad s.
-  Proof. apply maps_insert_strie. Qed.
-
-  Lemma m_compute_mono s u gen : bad s = true -> bad (fst (m_compute split s u gen)) = true.
-  Proof.
-    intros H. unfold m_compute. destruct (dget (cache s) u); auto.
-    destruct (negb (valid_uri u)); auto.
-    destruct (split_or_whole split s u) as [[ns0 nm0]|]; auto.
-    assert (M : bad (fst (m_prefix_for (m_insert_strie s ns0)
-                  (fst (pick_ns (m_insert_strie s ns0) ns0 nm0 u)) gen)) = true).
-    { apply m_prefix_for_mono. now rewrite bad_insert_strie. }
-    destruct (snd (m_prefix_for _ _ gen)); exact M.
-  Qed.
-
-  Lemma m_compute_strict_mono s u gen :
-    bad s = true -> bad (fst (m_compute_strict split split_s ncname s u gen)) = true.
-  Proof.
-    intros H. unfold m_compute_strict.
-    pose proof (m_compute_mono s u gen H) as M.
-    destruct (m_compute split s u gen) as [s1 [q|e]]; cbn [fst snd] in *; auto.
-    destruct (ncname (snd q)); auto.
-    destruct (dget (cache_s s1) u); auto.
-    destruct (split_s u) as [[ns' nm']|]; auto.
-    assert (M2 : bad (fst (m_prefix_for (m_insert_strie s1 ns') ns' gen)) = true).
-    { apply m_prefix_for_mono. now rewrite bad_insert_strie. }
-    destruct (snd (m_prefix_for _ _ gen)); exact M2.
-  Qed.
-
-  Lemma m_normalize_mono s u : bad s = true -> bad (fst (m_normalize split s u)) = true.
-  Proof.
-    intros H. unfold m_normalize. destruct (split u) as [[ns nm]|]; auto.
-    destruct (dget (n2p (m_insert_strie s ns)) ns); cbn [fst].
-    - apply m_compute_mono. now rewrite bad_insert_strie.
-    - now rewrite bad_insert_strie.
-  Qed.
-
-  Lemma m_step_mono s o : bad s = true -> bad (fst (m_step split split_s ncname s o)) = true.
-  Proof.
-    intros H. destruct o; cbn [m_step].
-    - pose proof (m_bind_mono s p n ov rep H). destruct (m_bind s p n ov rep) as [s' e]. exact H0.
-    - pose proof (m_compute_mono s u true H). destruct (m_compute split s u true) as [s' [q|e]]; exact H0.
-    - pose proof (m_compute_mono s u gen H). destruct (m_compute split s u gen) as [s' [q|e]]; exact H0.
-    - pose proof (m_compute_mono s u gen H). destruct (m_compute split s u gen) as [s' [q|e]]; exact H0.
-    - pose proof (m_compute_strict_mono s u gen H).
-      destruct (m_compute_strict split split_s ncname s u gen) as [s' [q|e]]; exact H0.
-    - pose proof (m_normalize_mono s u H). destruct (m_normalize split s u) as [s' [x|[q|e]]]; exact H0.
-    - exact H.
-    - exact H.
-    - exact H.
-  Qed.
-
-  Lemma m_final_mono ops : forall s, bad s = true -> bad (m_final split split_s ncname s ops) = true.
-  Proof.
-    induction ops as [|o r IH]; intros s H; cbn [m_final]; auto. apply IH. now apply m_step_mono.
   Qed.
 
   (* ---------------------------------------------------------------- *)
@@ -463,11 +345,17 @@ Section Mgr.
     destruct (dget (p2n s) pre); [|discriminate]. intros X; inversion X. apply str_eqb_refl.
   Qed.
 
+  Definition op_iri (o : op) : option str :=
+    match o with
+    | OQname u | OCurie u _ | OCompute u _ | OStrict u _ | ONorm u => Some u
+    | _ => None
+    end.
+
   Definition op_exact (o : op) : Prop :=
     forall u, op_iri o = Some u -> exact split u /\ exact split_s u.
 
   Lemma m_step_good s o :
-    good s -> bad (fst (m_step split split_s ncname s o)) = false ->
+    good s ->
     good (fst (m_step split split_s ncname s o)) /\
     (op_exact o ->
      snap_ok o (snap_of (fst (m_step split split_s ncname s o)) (snd (m_step split split_s ncname s o))) = true).
@@ -476,79 +364,69 @@ Section Mgr.
     destruct o; cbn [m_step].
     - (* bind *)
       pose proof (m_bind_good s p n ov rep Hg) as M.
-      destruct (m_bind s p n ov rep) as [s' e]. cbn [fst snd] in *. intros Hb.
-      destruct (M Hb) as [G R]. split; [exact G|]. intros _.
+      destruct (m_bind s p n ov rep) as [s' e]. cbn [fst snd] in *.
+      destruct M as [G R]. split; [exact G|]. intros _.
       rewrite (bij_ok_of_bij s' (proj1 G)). cbn [andb].
       destruct R as [->|(-> & p0 & -> & Hs)]; [reflexivity|exact Hs].
     - (* qname *)
-      destruct (m_compute_good s u true Hg) as (G & B & Q).
-      destruct (m_compute split s u true) as [s' [q|e]]; cbn [fst snd] in *; intros Hb;
+      destruct (m_compute_good s u true Hg) as (G & Q).
+      destruct (m_compute split s u true) as [s' [q|e]]; cbn [fst snd] in *;
         (split; [exact G|]); intros Hx; rewrite (bij_ok_of_bij s' (proj1 G)); cbn [andb res_ok]; auto.
       destruct (Hx u eq_refl) as [X1 X2].
       rewrite str_eqb_refl, (qn_ok_of_qg s' u _ q (Q _ eq_refl) X1), (exp_ok_qname s' u _ q (Q _ eq_refl) X1).
       reflexivity.
     - (* curie *)
-      destruct (m_compute_good s u gen Hg) as (G & B & Q).
-      destruct (m_compute split s u gen) as [s' [q|e]]; cbn [fst snd] in *; intros Hb;
+      destruct (m_compute_good s u gen Hg) as (G & Q).
+      destruct (m_compute split s u gen) as [s' [q|e]]; cbn [fst snd] in *;
         (split; [exact G|]); intros Hx; rewrite (bij_ok_of_bij s' (proj1 G)); cbn [andb res_ok]; auto.
       destruct (Hx u eq_refl) as [X1 X2].
       rewrite str_eqb_refl, (qn_ok_of_qg s' u _ q (Q _ eq_refl) X1), (exp_ok_curie s' u _ q (Q _ eq_refl) X1).
       reflexivity.
     - (* compute_qname *)
-      destruct (m_compute_good s u gen Hg) as (G & B & Q).
-      destruct (m_compute split s u gen) as [s' [q|e]]; cbn [fst snd] in *; intros Hb;
+      destruct (m_compute_good s u gen Hg) as (G & Q).
+      destruct (m_compute split s u gen) as [s' [q|e]]; cbn [fst snd] in *;
         (split; [exact G|]); intros Hx; rewrite (bij_ok_of_bij s' (proj1 G)); cbn [andb res_ok]; auto.
       destruct (Hx u eq_refl) as [X1 X2].
       apply (qn_ok_of_qg s' u _ q (Q _ eq_refl) X1).
     - (* compute_qname_strict *)
-      destruct (m_compute_strict_good s u gen Hg) as (G & B & Q).
-      destruct (m_compute_strict split split_s ncname s u gen) as [s' [q|e]]; cbn [fst snd] in *; intros Hb;
+      destruct (m_compute_strict_good s u gen Hg) as (G & Q).
+      destruct (m_compute_strict split split_s ncname s u gen) as [s' [q|e]]; cbn [fst snd] in *;
         (split; [exact G|]); intros Hx; rewrite (bij_ok_of_bij s' (proj1 G)); cbn [andb res_ok]; auto.
       apply (qn_ok_of_qg s' u _ q (Q _ eq_refl) (Hx u eq_refl)).
     - (* normalizeUri *)
-      destruct (m_normalize_good s u Hg) as (G & B & Q & A).
-      destruct (m_normalize split s u) as [s' [x|[q|e]]]; cbn [fst snd] in *; intros Hb;
+      destruct (m_normalize_good s u Hg) as (G & Q & A).
+      destruct (m_normalize split s u) as [s' [x|[q|e]]]; cbn [fst snd] in *;
         (split; [exact G|]); intros Hx; rewrite (bij_ok_of_bij s' (proj1 G)); cbn [andb res_ok]; auto.
       + rewrite (A x eq_refl). apply str_eqb_refl.
       + destruct (Hx u eq_refl) as [X1 X2].
         rewrite str_eqb_refl, (qn_ok_of_qg s' u _ q (Q _ eq_refl) X1), (exp_ok_curie s' u _ q (Q _ eq_refl) X1).
         reflexivity.
     - (* expand_curie *)
-      cbn [fst snd]. intros Hb. split; [exact Hg|]. intros _.
+      cbn [fst snd]. split; [exact Hg|]. intros _.
       rewrite (bij_ok_of_bij s (proj1 Hg)). cbn [andb].
       destruct (m_expand s c) as [x|e] eqn:E; cbn [res_ok]; auto. now apply expand_ok_model.
     - (* reset *)
-      cbn [fst snd]. intros Hb. destruct (m_reset_good s Hg) as [G _]. split; [exact G|]. intros _.
+      cbn [fst snd]. pose proof (m_reset_good s Hg) as G. split; [exact G|]. intros _.
       rewrite (bij_ok_of_bij _ (proj1 G)). reflexivity.
     - (* outside the model *)
-      cbn [fst snd]. intros Hb. split; [exact Hg|]. intros _.
+      cbn [fst snd]. split; [exact Hg|]. intros _.
       rewrite (bij_ok_of_bij s (proj1 Hg)). reflexivity.
   Qed.
 
   Lemma m_run_ok ops : forall s,
-    good s -> bad (m_final split split_s ncname s ops) = false ->
-    (forall o, In o ops -> op_exact o) ->
+    good s -> (forall o, In o ops -> op_exact o) ->
     all_ok ops (m_run split split_s ncname s ops) = true.
   Proof.
-    induction ops as [|o r IH]; intros s Hg Hb Hx; cbn [m_run m_final all_ok] in *; auto.
-    assert (Hb1 : bad (fst (m_step split split_s ncname s o)) = false).
-    { destruct (bad (fst (m_step split split_s ncname s o))) eqn:E; auto.
-      rewrite (m_final_mono r _ E) in Hb. discriminate. }
-    destruct (m_step_good s o Hg Hb1) as [G S].
+    induction ops as [|o r IH]; intros s Hg Hx; cbn [m_run m_final all_ok] in *; auto.
+    destruct (m_step_good s o Hg) as [G S].
     destruct (m_step split split_s ncname s o) as [s' x]. cbn [fst snd] in *.
     cbn [all_ok]. rewrite (S (Hx o (or_introl eq_refl))). cbn [andb].
     apply IH; auto. intros o' Ho. apply Hx. now right.
   Qed.
 
-  (* bijection after every step, as a statement about states *)
-  Lemma m_final_good ops : forall s,
-    good s -> bad (m_final split split_s ncname s ops) = false ->
-    good (m_final split split_s ncname s ops).
+  Lemma m_final_good ops : forall s, good s -> good (m_final split split_s ncname s ops).
   Proof.
-    induction ops as [|o r IH]; intros s Hg Hb; cbn [m_final] in *; auto.
-    assert (Hb1 : bad (fst (m_step split split_s ncname s o)) = false).
-    { destruct (bad (fst (m_step split split_s ncname s o))) eqn:E; auto.
-      rewrite (m_final_mono r _ E) in Hb. discriminate. }
-    apply IH; auto. now apply m_step_good.
+    induction ops as [|o r IH]; intros s Hg; cbn [m_final] in *; auto.
+    apply IH. now apply m_step_good.
   Qed.
 End Mgr.
